@@ -186,7 +186,10 @@ func MannWhitneyUTest(x1, x2 []float64, alt LocationHypothesis) (*MannWhitneyUTe
 				// which is 1.
 				p = 1
 			} else {
-				p = dist.CDF(Usmall) * 2
+				// With ties the distribution is not
+				// symmetric, so twice the lower tail
+				// can exceed 1.
+				p = math.Min(1, dist.CDF(Usmall)*2)
 			}
 
 		case LocationLess:
